@@ -76,7 +76,7 @@ def _sleep(seconds):
         sim.count('clock.sleep_in_reactor_thread')
         return
     sim.count('clock.sleep')
-    th.park(until=sim.now + max(0.0, float(seconds)), label='sleep')
+    th.park(until=sim.now + max(0.0, float(seconds)) * getattr(th, 'poll_scale', 1.0), label='sleep')  # poll_scale: a tuning knob of the harness (slower polling = fewer steps)
 
 
 def _make_timeshim():
